@@ -113,10 +113,10 @@ Proof.
   rewrite IH by exact Hls. cbn [map concat]. now rewrite app_assoc.
 Qed.
 
-Lemma hdr_scan ex m b : wf_kernel ex m = true ->
+Lemma hdr_scan m b : wf_kernel0 m = true ->
   findall try 0 (10 :: hdr_text m ++ b) = findall try 0 b.
 Proof.
-  intros Hk. apply findall_miss; [|now apply (hdr_text_no_nl ex)].
+  intros Hk. apply findall_miss; [|now apply (hdr_text_no_nl)].
   pose proof Hk as Hk2. apply wf_kernel_parts in Hk as (_ & _ & Hh & _).
   unfold hdr_text, hdr_core, hdr_tokens. cbn [join]. destruct (m_addr m) as [|c r]; [discriminate|].
   rewrite <- !app_assoc. cbn [app]. unfold is_hex, is_digit in Hh. apply try_first; lia.
@@ -124,35 +124,35 @@ Qed.
 
 Definition mhits (m : mapping) : list bytes := concat (map hit (m_lines m)).
 
-Lemma texts_scan ex ms ys : texts_of ms ys -> forallb (wf_kernel ex) ms = true ->
+Lemma texts_scan ms ys : texts_of ms ys -> forallb wf_kernel0 ms = true ->
   forall b, nl_or_end b ->
   findall try 0 (nl_concat ys ++ b) = concat (map mhits ms) ++ findall try 0 b.
 Proof.
   induction 1 as [|m ms xs ys Hx _ IH]; intros Hwf b Hb; [reflexivity|].
   cbn [forallb] in Hwf. apply andb_true_iff in Hwf as [Hm Hms].
   unfold nl_concat. cbn [map concat]. fold (nl_concat (xs ++ ys)). rewrite nl_concat_app.
-  rewrite <- !app_assoc. cbn [app]. rewrite (hdr_scan ex m _ Hm).
+  rewrite <- !app_assoc. cbn [app]. rewrite (hdr_scan m _ Hm).
   rewrite (lines_scan (m_lines m) xs); [| |exact Hx|now apply nl_concat_end].
   2:{ now apply wf_kernel_parts in Hm as (_ & _ & _ & _ & Hl & _). }
   rewrite IH by assumption. cbn [map concat]. unfold mhits at 2. now rewrite app_assoc.
 Qed.
 
 (* the scan of the stripped listing *)
-Lemma smaps_scan ex ms : forallb (wf_kernel ex) ms = true ->
+Lemma smaps_scan ms : forallb wf_kernel0 ms = true ->
   findall try 0 (strip (k_smaps ms)) = concat (map mhits ms).
 Proof.
   intros Hk. destruct ms as [|m0 ms]; [reflexivity|].
-  rewrite (strip_smaps ex m0 ms Hk).
-  pose proof (texts_of_plines (m0 :: ms) (wf_has_lines ex _ Hk)) as Ht.
+  rewrite (strip_smaps m0 ms Hk).
+  pose proof (texts_of_plines (m0 :: ms) (wf_has_lines _ Hk)) as Ht.
   remember (trim_last (plines (m0 :: ms))) as T eqn:ET. clear ET.
   inversion Ht as [|? ? xs ys Hx Hy E1 E2]; subst.
   cbn [forallb] in Hk. apply andb_true_iff in Hk as [Hk0 Hks].
   rewrite join_nl, nl_concat_app.
   rewrite <- (app_nil_r (nl_concat ys)).
-  rewrite (findall_within (hdr_text m0) O); [|lia|now apply (hdr_text_no_nl ex)].
+  rewrite (findall_within (hdr_text m0) O); [|lia|now apply (hdr_text_no_nl)].
   rewrite (lines_scan (m_lines m0) xs); [| |exact Hx|apply nl_concat_end; now left].
   2:{ now apply wf_kernel_parts in Hk0 as (_ & _ & _ & _ & Hl & _). }
-  rewrite (texts_scan ex ms ys Hy Hks [] (or_introl eq_refl)).
+  rewrite (texts_scan ms ys Hy Hks [] (or_introl eq_refl)).
   cbn [map concat findall]. unfold mhits at 2. now rewrite app_nil_r.
 Qed.
 End Scan.
@@ -396,27 +396,27 @@ Proof.
   unfold sum_over in IH. rewrite IH; [reflexivity|]. intros m' Hm'. apply H. now right.
 Qed.
 
-Lemma counts_of ex m : wf_kernel ex m = true ->
+Lemma counts_of m : wf_kernel0 m = true ->
   (count_fig FPrivateClean (m_lines m) <= 1)%nat /\ (count_fig FPrivateDirty (m_lines m) <= 1)%nat
   /\ (count_fig FPrivateHugetlb (m_lines m) <= 1)%nat /\ (count_fig FPss (m_lines m) <= 1)%nat
   /\ (count_fig FSwap (m_lines m) <= 1)%nat.
 Proof.
-  intros H. repeat split; now apply (count_le1 ex).
+  intros H. repeat split; now apply (count_le1).
 Qed.
 
 (* _parse_smaps on every kernel-formatted listing *)
-Theorem smaps_sums_spec ex ms : forallb (wf_kernel ex) ms = true ->
+Theorem smaps_sums_spec ms : forallb wf_kernel0 ms = true ->
   smaps_sums (strip (k_smaps ms)) = spec_sums ms.
 Proof.
   intros Hk. unfold smaps_sums, spec_sums.
-  rewrite (smaps_scan try_private is_private try_private_nl try_private_fig try_private_other try_private_first ex ms Hk).
-  rewrite (smaps_scan try_pss (fig_eqb FPss) try_pss_nl try_pss_fig try_pss_other try_pss_first ex ms Hk).
-  rewrite (smaps_scan try_swap (fig_eqb FSwap) try_swap_nl try_swap_fig try_swap_other try_swap_first ex ms Hk).
+  rewrite (smaps_scan try_private is_private try_private_nl try_private_fig try_private_other try_private_first ms Hk).
+  rewrite (smaps_scan try_pss (fig_eqb FPss) try_pss_nl try_pss_fig try_pss_other try_pss_first ms Hk).
+  rewrite (smaps_scan try_swap (fig_eqb FSwap) try_swap_nl try_swap_fig try_swap_other try_swap_first ms Hk).
   rewrite forallb_forall in Hk.
   rewrite (sum_mhits is_private private_kb), (sum_mhits (fig_eqb FPss) (fun m => kb m FPss)),
           (sum_mhits (fig_eqb FSwap) (fun m => kb m FSwap)); [reflexivity| | |].
-  - intros m Hm. destruct (counts_of ex m (Hk m Hm)) as (_ & _ & _ & _ & H). unfold mhits, kb. now apply hit_single.
-  - intros m Hm. destruct (counts_of ex m (Hk m Hm)) as (_ & _ & _ & H & _). unfold mhits, kb. now apply hit_single.
-  - intros m Hm. destruct (counts_of ex m (Hk m Hm)) as (H1 & H2 & H3 & _). unfold mhits, private_kb, kb.
+  - intros m Hm. destruct (counts_of m (Hk m Hm)) as (_ & _ & _ & _ & H). unfold mhits, kb. now apply hit_single.
+  - intros m Hm. destruct (counts_of m (Hk m Hm)) as (_ & _ & _ & H & _). unfold mhits, kb. now apply hit_single.
+  - intros m Hm. destruct (counts_of m (Hk m Hm)) as (H1 & H2 & H3 & _). unfold mhits, private_kb, kb.
     rewrite hit_private_split, !hit_single by assumption. reflexivity.
 Qed.
